@@ -58,12 +58,7 @@ fn handler(name: &str) -> Option<Handler> {
     })
 }
 
-fn main() {
-    let args: Vec<String> = std::env::args().collect();
-    let Some(h) = args.get(1).and_then(|n| handler(n)) else {
-        eprintln!("usage: oalv <subcommand>  (ndjson on stdin, ndjson on stdout)");
-        std::process::exit(2);
-    };
+fn install_hook() {
     std::panic::set_hook(Box::new(|info| {
         let msg = if let Some(s) = info.payload().downcast_ref::<&str>() {
             (*s).to_owned()
@@ -78,6 +73,19 @@ fn main() {
             .unwrap_or_default();
         LAST_PANIC.with(|p| *p.borrow_mut() = Some((msg, at)));
     }));
+}
+
+fn main() {
+    let args: Vec<String> = std::env::args().collect();
+    let Some(h) = args.get(1).and_then(|n| handler(n)) else {
+        eprintln!("usage: oalv <subcommand>  (ndjson on stdin, ndjson on stdout)");
+        std::process::exit(2);
+    };
+    if args.get(1).map(String::as_str) == Some("wasm") {
+        // the playground entry point installs its own panic hook once; let it do so first
+        let _ = oal_wasm::compile("");
+    }
+    install_hook();
     // The CLI and the language server run on a main thread with the default 8 MiB stack;
     // cases run on a thread of that size so that depth-related aborts are comparable.
     let stack = std::env::var("OALV_STACK_MB")
